@@ -205,7 +205,7 @@ func TestC04_RandomPrograms(t *testing.T) {
 		"random programs biased to assignments and reads over names {a, b, c, loop} at every nesting position of @if/@elseif/@else, @each and @for (depth 3), with values of int, float, string, bool, array, object and nil type (literals and expressions), loop variables that shadow visible names (same and different type), and data maps that pre-bind a random subset of the names; expected rendering or error from the reference scope chain. Non-trivial: an assignment in a nested block to a visible name followed by reads, or a type collision, or a loop variable shadowing a visible name. Distinct by hash of source + data.")
 	defer c.Finish()
 	in := interp()
-	runRapid(t, c, 12000, 40000, func(rt *rapid.T) {
+	runRapid(t, c, 12000, 120000, func(rt *rapid.T) {
 		env := genProgEnv().Draw(rt, "data")
 		g := newProgGen(rt, env)
 		g.wIf, g.wLoop, g.wAssign, g.wCtl = 3, 3, 8, 1
